@@ -9,7 +9,7 @@ Decided:
   ERRDISC   every Result from the I/O / parse layer inside apply and its helpers is propagated with `?` or consumed by
             an enumerated idiom
 Not decided: wall-time bounds of loops, Add/Mul overflow (wraps in release; the wrapped value then meets an index or
-alloc site which is decided), undefined behaviour inside the two unsafe blocks reached.
+alloc site which is decided).
 """
 import re
 
@@ -150,9 +150,14 @@ def run(ctx):
     ctx.decided("ZiPatch::apply reports success only at the end-of-file chunk")
     ctx.decided("I/O and parse errors inside apply are propagated")
     ctx.decided("every reachable loop carries a structural termination argument (LOOPS)")
-    ctx.not_decided("wall time; Add/Mul overflow asserts; soundness of the unsafe blocks reached (from_u16)")
+    ctx.decided("reachable unsafe operations stay inside the memory of the slice they view (UNSAFE: extent, not data validity)")
+    ctx.not_decided("wall time; Add/Mul overflow asserts")
 
     sites, reach, parent, defs, sccs, und = run_panic(ctx, ENTRIES, floor_entries=12, floor_defs=300)
+    from ..unsafe_rule import rule as unsafe_rule
+
+    n_unsafe = unsafe_rule(ctx, defs)
+    ctx.floor("UNSAFE", "unsafe operations reachable from the entry points (from_u16 view, SHA-1 block cast, libz calls)", n_unsafe, 3)
     run_loops(ctx, defs, floor=LOOPS_FLOOR)
     for comp in sccs:
         ctx.ob("RECURSION", "|".join(comp)[:200], False, f"recursion reachable from untrusted input (stack depth is input-controlled): {comp}", None, None)
